@@ -41,78 +41,24 @@ Fixpoint stale_ok_along (h : hstate) (evs : list hevent) : bool :=
   | e :: r => stale_ok (h_step h e) && stale_ok_along (h_step h e) r
   end.
 
-(* ------------------------------------------------------------ known input classes
-   (decidable predicates of the event history; gen/c10.py known_classes mirrors them) *)
+(* ------------------------------------------------------------ helpers
+   (findings C10-1 .. C10-7 are repaired; no input class is excluded) *)
 
 Definition fams_of_gr (gr : option (list fam * N * bool)) : list fam :=
   match gr with Some (l, _, _) => l | None => [] end.
 Definition fams_of_llgr (ll : option (list (fam * N))) : list fam :=
   match ll with Some l => map fst l | None => [] end.
 
-Record kstate := {
-  k_admin : bool;
-  k_sess : option (option (list fam * N * bool) * option (list (fam * N)));
-  k_running : list fam;     (* families whose LLGR period may be running *)
-  k_pending : list fam;     (* LLGR families of the last drop (period starts at restart-timer expiry) *)
-  k_hit : list N            (* finding numbers hit so far *)
-}.
-
-Definition k0 : kstate := {| k_admin := false; k_sess := None; k_running := []; k_pending := []; k_hit := [] |}.
-
 Definition subset_b (a b : list N) : bool := forallb (fun x => mem x b) a.
 
-Definition k_step (k : kstate) (e : hevent) : kstate :=
-  match e with
-  | HSetAdminDown b =>
-      {| k_admin := b; k_sess := k_sess k; k_running := k_running k; k_pending := k_pending k; k_hit := k_hit k |}
-  | HUp _ gr ll =>
-      match k_sess k with
-      | Some _ => k
-      | None =>
-          let g := fams_of_gr gr in
-          let l := fams_of_llgr ll in
-          let both := match gr, ll with Some _, Some _ => true | _, _ => false end in
-          let h4 := if both && negb (subset_b g l) then [4] else [] in
-          let h5 := if both && negb (subset_b l g) then [5] else [] in
-          let h3 := match k_running k, g with
-                    | _ :: _, _ :: _ => if subset_b (k_running k) g then [] else [3]
-                    | _, _ => []
-                    end in
-          {| k_admin := k_admin k; k_sess := Some (gr, ll); k_running := []; k_pending := [];
-             k_hit := k_hit k ++ h4 ++ h5 ++ h3 |}
-      end
-  | HRestartTimer =>
-      match k_sess k with
-      | None => {| k_admin := k_admin k; k_sess := None; k_running := k_running k ++ k_pending k;
-                   k_pending := k_pending k; k_hit := k_hit k |}
-      | Some _ => k
-      end
-  | HAnnounce _ _ _ lc =>
-      if lc then {| k_admin := k_admin k; k_sess := k_sess k; k_running := k_running k; k_pending := k_pending k;
-                    k_hit := k_hit k ++ [6] |} else k
-  | HDown r =>
-      match k_sess k with
-      | Some (gr, ll) =>
-          let nbit := match gr with Some (_, _, b) => b | None => false end in
-          let eligible := match gr with
-                          | Some _ => gr_applies r nbit && negb (k_admin k)
-                          | None => match r with RsTcp => negb (k_admin k) | _ => false end
-                          end in
-          let negotiated := match gr, ll with None, None => false | _, _ => true end in
-          {| k_admin := k_admin k; k_sess := None;
-             k_running := match gr, ll with None, Some _ => fams_of_llgr ll | _, _ => k_running k end;
-             k_pending := match gr, ll with Some _, Some _ => fams_of_llgr ll | _, _ => k_pending k end;
-             k_hit := k_hit k ++ (if negotiated && negb eligible then [2] else []) |}
-      | None => k
-      end
-  | _ => k
+(* the disconnect reason does not allow helper mode for this session: the peer is
+   admin-down, or GR was negotiated and the reason is not eligible (hard reset,
+   non-Cease error, NOTIFICATION / hold-timer expiry without the N bit), or GR was
+   not negotiated and the reason is anything but a TCP failure (LLGR alone follows
+   the same rule as GR) *)
+Definition not_eligible (h : hstate) (s : session) (r : reason) : bool :=
+  h_admin_down h ||
+  match s_gr s with
+  | Some (_, _, nbit) => negb (gr_applies r nbit)
+  | None => match r with RsTcp => false | _ => true end
   end.
-
-Definition known_hits (evs : list hevent) : list N := k_hit (fold_left k_step evs k0).
-
-Definition Known_C10_2 (evs : list hevent) : bool := mem 2 (known_hits evs).
-Definition Known_C10_3 (evs : list hevent) : bool := mem 3 (known_hits evs).
-Definition Known_C10_4 (evs : list hevent) : bool := mem 4 (known_hits evs).
-Definition Known_C10_5 (evs : list hevent) : bool := mem 5 (known_hits evs).
-Definition Known_C10_6 (evs : list hevent) : bool := mem 6 (known_hits evs).
-Definition known_any (evs : list hevent) : bool := negb (match known_hits evs with [] => true | _ => false end).
